@@ -704,15 +704,6 @@ func assertMerge(vm *VM, t Term, merge func([]clause, []clause) []clause, env *E
 		}
 	}
 
-	if vm.procedures == nil {
-		vm.procedures = map[procedureIndicator]procedure{}
-	}
-	p, ok := vm.procedures[pi]
-	if !ok {
-		p = &userDefined{public: true, dynamic: true}
-		vm.procedures[pi] = p
-	}
-
 	// The stored clause is a copy of its own: what the caller does to its variables later is none of the clause's business.
 	t, err = renamedCopy(t, nil, env)
 	if err != nil {
@@ -724,11 +715,20 @@ func assertMerge(vm *VM, t Term, merge func([]clause, []clause) []clause, env *E
 		return err
 	}
 
+	p, ok := vm.procedures[pi]
+	if !ok {
+		p = &userDefined{public: true, dynamic: true}
+	}
 	u, ok := p.(*userDefined)
 	if !ok || !u.dynamic {
 		return permissionError(operationModify, permissionTypeStaticProcedure, pi.Term(), env)
 	}
 
+	// Nothing fails from here on: an assert that raises an error leaves the database as it was, without a new empty procedure.
+	if vm.procedures == nil {
+		vm.procedures = map[procedureIndicator]procedure{}
+	}
+	vm.procedures[pi] = u
 	u.clauses = merge(u.clauses, added)
 	return nil
 }
